@@ -1,6 +1,7 @@
 package rules
 
 import (
+	"fmt"
 	"go/token"
 	"go/types"
 	"sort"
@@ -160,7 +161,8 @@ func checkC01(c *Ctx) {
 		up, ok := chainLoops(sites[0].Instr.(ssa.Instruction), depth+1)
 		return append(hs, up...), ok
 	}
-	var postHook ssa.Value // the phi of (policy branch, extension branch)
+	var postHook ssa.Value         // the phi of (policy branch, extension branch)
+	var metaAnchor ssa.Instruction // where the Delivery record is complete: the AddMessage call, or the append that queues it
 	if len(adds) != 1 {
 		r.Bad("C01/ONCE/fanout", "single-site", p.Pos(deliver.Pos()), "Deliver contains %d AddMessage call sites; exactly one is required (a second site stores a message twice or to an extra mailbox)", len(adds))
 	} else {
@@ -173,26 +175,23 @@ func checkC01(c *Ctx) {
 		} else if len(hs) != 1 {
 			detail = "the AddMessage site is nested in " + string(rune('0'+len(hs))) + " loops; exactly one (over the destination mailboxes) is required"
 		} else {
-			h := hs[0]
-			rel, ok := eng.EdgeRel(h, 0)
-			var ranged ssa.Value
-			if ok && rel.Op == token.LSS {
-				ranged = rel.Y
-				if lx := eng.LenOf(rel.Y); lx != nil {
-					ranged = lx
-				}
-				// go/ssa hoists len(x) before the loop: t = len(x)
-				if call, ok := rel.Y.(*ssa.Call); ok && eng.CalleeName(call.Common()) == "builtin.len" {
-					ranged = call.Call.Args[0]
-				}
-			}
+			ranged := rangedBy(hs[0])
 			if ranged != nil && eng.SameField(eng.LoadedField(ranged), fMailboxes) {
 				base := ranged.(*ssa.UnOp).X.(*ssa.FieldAddr).X
 				postHook = base
 				okLoop = true
 				detail = "one AddMessage site, in the single loop ranging over InboundMessage.Mailboxes"
+			} else if ap, base, why := c.c01DerivedList(ranged, add, fMailboxes); ap != nil {
+				// two passes: the deliveries are prepared one per destination, then stored
+				postHook = base
+				metaAnchor = ap
+				okLoop = true
+				detail = "one AddMessage site, in the single loop over the deliveries prepared one per element of InboundMessage.Mailboxes (at " + p.InstrPos(ap) + ")"
 			} else {
 				detail = "the loop around AddMessage does not range over InboundMessage.Mailboxes"
+				if why != "" {
+					detail += " (" + why + ")"
+				}
 			}
 		}
 		r.Check(okLoop, "C01/ONCE/fanout", "single-site", p.InstrPos(add), detail, detail)
@@ -325,10 +324,116 @@ func checkC01(c *Ctx) {
 	c.c03Reset("C01", m, t)
 
 	// ---- D7
-	c.c01Meta(deliver, adds, postHook, fMeta, fMailboxes)
+	c.c01Meta(deliver, adds, metaAnchor, postHook, fMeta, fMailboxes)
 }
 
 // c01Mailboxes checks the rebuild of the destination list on the no-extension branch.
+// rangedBy returns the slice a `for … range` loop with header h walks, or nil.
+func rangedBy(h *ssa.BasicBlock) ssa.Value {
+	rel, ok := eng.EdgeRel(h, 0)
+	if !ok || rel.Op != token.LSS {
+		return nil
+	}
+	ranged := rel.Y
+	if lx := eng.LenOf(rel.Y); lx != nil {
+		ranged = lx
+	}
+	// go/ssa hoists len(x) before the loop: t = len(x)
+	if call, ok := rel.Y.(*ssa.Call); ok && eng.CalleeName(call.Common()) == "builtin.len" {
+		ranged = call.Call.Args[0]
+	}
+	return ranged
+}
+
+// c01DerivedList decides the two-pass fan-out: the slice the storing loop walks was built from
+// an empty slice by exactly one append, of one element, on every iteration of a single loop
+// that ranges over InboundMessage.Mailboxes; the stored message is the element at the storing
+// loop's counter. Returns the append and the InboundMessage (in Deliver's terms).
+func (c *Ctx) c01DerivedList(ranged ssa.Value, add *ssa.Call, fMailboxes *types.Var) (ssa.Instruction, ssa.Value, string) {
+	p := c.P
+	if ranged == nil {
+		return nil, nil, ""
+	}
+	// what is stored: element of the walked slice at the loop counter
+	arg := unwrapIface(add.Call.Args[len(add.Call.Args)-1])
+	u, ok := arg.(*ssa.UnOp)
+	if !ok {
+		return nil, nil, ""
+	}
+	ia, ok := u.X.(*ssa.IndexAddr)
+	if !ok || ia.X != ranged || !isRangeCounter(ia.Index) {
+		return nil, nil, ""
+	}
+	call, idx := eng.CallAndIndex(p.Actual(ranged))
+	if call == nil {
+		return nil, nil, ""
+	}
+	rets, g := eng.ReturnedValues(call, idx)
+	if g == nil || len(rets) == 0 {
+		return nil, nil, ""
+	}
+	var appends []*ssa.Call
+	seen := map[ssa.Value]bool{}
+	var walk func(v ssa.Value) bool
+	walk = func(v ssa.Value) bool {
+		if seen[v] {
+			return true
+		}
+		seen[v] = true
+		switch x := v.(type) {
+		case *ssa.Phi:
+			for _, e := range x.Edges {
+				if !walk(e) {
+					return false
+				}
+			}
+			return true
+		case *ssa.MakeSlice:
+			k, isK := eng.ConstInt(x.Len)
+			return isK && k == 0
+		case *ssa.Const:
+			return x.IsNil()
+		case *ssa.Call:
+			if eng.CalleeName(x.Common()) != "builtin.append" {
+				return false
+			}
+			appends = append(appends, x)
+			return walk(x.Call.Args[0])
+		}
+		return false
+	}
+	for _, v := range rets {
+		if !walk(v) {
+			return nil, nil, "the prepared list is not built by appending to an empty slice"
+		}
+	}
+	if len(appends) != 1 {
+		return nil, nil, fmt.Sprintf("the prepared list is built by %d appends; exactly one per destination is required", len(appends))
+	}
+	ap := appends[0]
+	if sl, ok := ap.Call.Args[1].(*ssa.Slice); !ok {
+		return nil, nil, "the prepared list is extended by a whole slice"
+	} else if al, ok := sl.X.(*ssa.Alloc); !ok || al.Type().(*types.Pointer).Elem().(*types.Array).Len() != 1 {
+		return nil, nil, "the prepared list does not grow by exactly one delivery per destination"
+	}
+	hs := loopHeaders(ap.Block())
+	if len(hs) != 1 {
+		return nil, nil, "the prepared list is not filled in exactly one loop"
+	}
+	h := hs[0]
+	// every iteration appends: the append dominates each back edge
+	for _, t := range h.Preds {
+		if h.Dominates(t) && !ap.Block().Dominates(t) {
+			return nil, nil, "an iteration over the destinations can skip the append"
+		}
+	}
+	src := rangedBy(h)
+	if src == nil || !eng.SameField(eng.LoadedField(src), fMailboxes) {
+		return nil, nil, "the prepared list is not filled by a loop over InboundMessage.Mailboxes"
+	}
+	return ap, p.Actual(src.(*ssa.UnOp).X.(*ssa.FieldAddr).X), ""
+}
+
 func (c *Ctx) c01Mailboxes(deliver *ssa.Function, fMailboxes, fRecipMb *types.Var, shouldStore *ssa.Function) {
 	c.c01MailboxesAs("C01/FLOW/mailboxes", deliver, fMailboxes, fRecipMb, shouldStore)
 }
@@ -644,11 +749,14 @@ func (c *Ctx) c01Ack(m *smtpModel) {
 	}
 }
 
-func (c *Ctx) c01Meta(deliver *ssa.Function, adds []*ssa.Call, postHook ssa.Value, fMeta, fMailboxes *types.Var) {
+func (c *Ctx) c01Meta(deliver *ssa.Function, adds []*ssa.Call, anchor ssa.Instruction, postHook ssa.Value, fMeta, fMailboxes *types.Var) {
 	r, p := c.R, c.P
 	if postHook == nil || len(adds) != 1 {
 		r.Undecided("C01/META", "Delivery.Meta", p.Pos(deliver.Pos()), "post-hook message or AddMessage site not established (see C01/ONCE/fanout)")
 		return
+	}
+	if anchor == nil {
+		anchor = adds[0]
 	}
 	want := map[string]string{"From": "From", "To": "To", "Subject": "Subject", "Size": "Size"}
 	got := map[string]bool{}
@@ -661,7 +769,7 @@ func (c *Ctx) c01Meta(deliver *ssa.Function, adds []*ssa.Call, postHook ssa.Valu
 			okMb := false
 			if u, ok := p.Actual(st.Val).(*ssa.UnOp); ok {
 				if ia, ok := u.X.(*ssa.IndexAddr); ok && eng.SameField(eng.LoadedField(ia.X), fMailboxes) {
-					if ia.X.(*ssa.UnOp).X.(*ssa.FieldAddr).X == postHook {
+					if p.Actual(ia.X.(*ssa.UnOp).X.(*ssa.FieldAddr).X) == postHook {
 						okMb = true
 					}
 				}
@@ -682,7 +790,7 @@ func (c *Ctx) c01Meta(deliver *ssa.Function, adds []*ssa.Call, postHook ssa.Valu
 			}
 		}
 	}
-	eng.EachInstr(adds[0].Parent(), func(in ssa.Instruction) {
+	eng.EachInstr(anchor.Parent(), func(in ssa.Instruction) {
 		st, ok := in.(*ssa.Store)
 		if !ok {
 			return
@@ -691,7 +799,7 @@ func (c *Ctx) c01Meta(deliver *ssa.Function, adds []*ssa.Call, postHook ssa.Valu
 		if !ok {
 			return
 		}
-		if eng.SameField(eng.FieldOfAddr(fa), fMeta) && eng.Dominates(st, adds[0]) {
+		if eng.SameField(eng.FieldOfAddr(fa), fMeta) && eng.Dominates(st, anchor) {
 			// the whole record copied from a local template whose fields are set beforehand
 			// (meta := MessageMetadata{…}; meta.Mailbox = mb; Meta: meta)
 			if u, ok := st.Val.(*ssa.UnOp); ok {
@@ -742,7 +850,7 @@ func (c *Ctx) c01Meta(deliver *ssa.Function, adds []*ssa.Call, postHook ssa.Valu
 		if !ok || !eng.SameField(eng.FieldOfAddr(outer), fMeta) {
 			return
 		}
-		if !eng.Dominates(st, adds[0]) {
+		if !eng.Dominates(st, anchor) {
 			return
 		}
 		checkField(eng.FieldOfAddr(fa).Name(), st)
